@@ -263,6 +263,17 @@ impl Driver for C11 {
                     // integral values beyond 2^63 can only be written as decimals
                     m.obj = E::add(m.obj.clone(), E::Num([3e19, 1e21, 2.5e20][rng.gen_range(0..3)]));
                 }
+                if rng.gen_bool(0.15) {
+                    // literals with more digits than any rounding of the formatter may keep
+                    let k = [0.0000004, 3.14159265, 0.3333333333, 1.0000001, 123.4567891, 0.000000123][rng.gen_range(0..6)];
+                    let nums: Vec<usize> = (0..m.n()).filter(|i| m.types[*i] != VT::Bool).collect();
+                    if let Some(&i) = nums.first() {
+                        m.cons.push(Con { name: None, kind: CKind::Cmp(E::mul(E::Num(k), E::Var(i)), Cmp::Le, E::Num(k * 3.0)) });
+                        if m.sense != Sense::Satisfy {
+                            m.obj = E::add(m.obj.clone(), E::mul(E::Num(k), E::Var(i)));
+                        }
+                    }
+                }
                 let style = Style::random(&mut rng);
                 model_text(&m, &mut rng, style)
             };
